@@ -74,7 +74,10 @@ RECIPES = [
     ("C15", "break", ["C15-R2"], FRC, "    if not len(freq) == As.shape[1] == SAM.shape[1] == LAM.shape[1]:", "    if not len(freq) == As.shape[1] == SAM.shape[1]:",
      "size check without the load"),
     ("C15", "break", ["C15-R2"], FRC, "        A[:, j] = Mr @ As[:, j]", "        A[:, j] = Mr @ As[j, :]", "row of the free acceleration"),
+    ("C15", "break", ["C15-R1"], FRC, "fs = ode.FreqDirect(m, b, k)", "fs = ode.FreqDirect(m, k, b)", "fall-back solver built with damping and stiffness swapped"),
+    ("C15", "break", ["C15-R1"], FRC, "fs = ode.SolveUnc(m, b, k, pre_eig=True)", "fs = ode.SolveUnc(m, k=b, b=k, pre_eig=True)", "default solver: keywords crossed"),
     # ---- neutral: spelling the same computation differently
+    ("C15", "neutral", [], FRC, "fs = ode.FreqDirect(m, b, k)", "fs = ode.FreqDirect(k=S[2], m=S[0], b=S[1])", "fall-back solver built with keywords"),
     ("C15", "neutral", [], FRC, _NT_LOOP, _NT_WHILE, "ntfl loop as a counted while loop, renamed temporaries, `...`/short subscripts, np.dot, np.linalg.solve"),
     ("C15", "neutral", [], FRC, _NT_LOOP, _NT_EINSUM, "force vectorised with the documented einsum"),
     ("C15", "neutral", [], FRC, _NT_LOOP, _NT_HELPER, "loop body as a closure over moveaxis views"),
